@@ -182,6 +182,7 @@ func (s scanCase) setup(policy func(*sim.ScanCtx) sim.ScanChunk) (*sim.Cluster, 
 	}
 	cl.ScanPolicy = policy
 	cl.PBResults = s.PBResults
+	cl.ZeroScannerID = s.Seed%5 == 2 // scanner ids are arbitrary: 0 is one
 	opts := []gohbase.Option{gohbase.RegionLookupTimeout(5 * time.Second), gohbase.RegionReadTimeout(5 * time.Second)}
 	if s.Compress {
 		opts = append(opts, gohbase.CompressionCodec("snappy"))
